@@ -32,6 +32,7 @@
 #define ALGO_T TbfOpenmpAlgorithm
 #define ALGOTSM_T TbfOpenmpAlgorithmTsm
 #endif
+#include "kernels/counterkernels/tbfinteractioncounter.hpp"
 #include "common.hpp"
 #include "trace_kernel.hpp"
 #include <algorithm>
@@ -177,6 +178,49 @@ std::string run_exec_omp_tsm(const Cmd& c){
     return out;
 }
 
+//   execcntrt d per H B mode stop policy T seed N nums... : full run of the task executor with one TbfInteractionCounter-wrapped
+//   kernel per worker under the schedule; the per-worker counters are merged with Counters::Reduce in both orders (C18)
+// output: dump || trace || K per-worker counters || F merged forward || B merged backward || R values
+template <long D, bool Per>
+std::string run_exec_cnt_rt(const Cmd& c){
+    using Conf = TbfSpacialConfiguration<double, D>;
+    using Space = TbfMortonSpaceIndex<D, Conf, Per>;
+    using Tree = TbfTree<double, double, D, unsigned long, 1, TagVal, TagVal, Space>;
+    using Kernel = TbfInteractionCounter<TraceKernel<double, Space>>;
+    using Algo = ALGO_T<double, Kernel, Space>;
+    using Counters = typename Kernel::ReduceType;
+    const long H = c.L(3), B = c.L(4), mode = c.L(5), stop = c.L(6), policy = c.L(7), T = c.L(8), seed = c.L(9);
+    size_t a = 10;
+    const long N = c.L(a++);
+    std::array<double, D> w, ctr; for(long k = 0 ; k < D ; ++k){ w[k] = 1; ctr[k] = 0.5; }
+    Conf conf(H, w, ctr);
+    const double scale = 16.0 * double(1L << (H-1));
+    std::vector<std::array<double, D>> pos(N);
+    for(long i = 0 ; i < N ; ++i) for(long k = 0 ; k < D ; ++k) pos[i][k] = double(c.L(a++)) / scale;
+    Tree tree(conf, pos, B, mode != 0);
+    tag_cells(tree);
+    TraceSink sink; trace_sink() = &sink;
+    mock_rt().reset(MockRuntime::Policy(policy), int(T), (unsigned long)seed);
+    mock_rt().on_task_start = nullptr; mock_rt().on_spawn = nullptr;
+    std::string out = dump(tree);
+    std::vector<Counters> copies;
+    {
+        std::unique_ptr<Algo> algo(new Algo(conf, stop));
+        algo->execute(tree);
+        algo->applyToAllKernels([&](const auto& k){ copies.push_back(k.getReduceData()); });
+    }
+    auto cs = [](const Counters& k){ return std::to_string(k.P2M) + " " + std::to_string(k.M2M) + " " + std::to_string(k.M2L) + " " + std::to_string(k.L2L)
+                                        + " " + std::to_string(k.L2P) + " " + std::to_string(k.P2P) + " " + std::to_string(k.P2PInner); };
+    out += " || " + join_trace(sink) + " || K ";
+    for(size_t k = 0 ; k < copies.size() ; ++k) out += (k ? " | " : "") + cs(copies[k]);
+    Counters f, b;
+    for(size_t k = 0 ; k < copies.size() ; ++k) f = Counters::Reduce(f, copies[k]);
+    for(size_t k = copies.size() ; k-- > 0 ; ) b = Counters::Reduce(b, copies[k]);
+    out += " || F " + cs(f) + " || B " + cs(b) + " || " + values(tree);
+    trace_sink() = nullptr;
+    return out;
+}
+
 int main(int argc, char** argv){
     return run_commands(argc, argv, [](const Cmd& c) -> std::string {
         const long d = c.L(1); const bool per = c.L(2) != 0;
@@ -185,6 +229,14 @@ int main(int argc, char** argv){
             case 2: return run_exec_omp_tsm<1,false>(c);
             case 4: return run_exec_omp_tsm<2,false>(c);
             case 6: return run_exec_omp_tsm<3,false>(c);
+            }
+            return "?dim";
+        }
+        if(c.tok[0] == "execcntrt"){
+            switch(d*2 + (per?1:0)){
+            case 2: return run_exec_cnt_rt<1,false>(c);
+            case 4: return run_exec_cnt_rt<2,false>(c);
+            case 6: return run_exec_cnt_rt<3,false>(c);
             }
             return "?dim";
         }
